@@ -87,9 +87,9 @@ func (c *Ctx) checkSanitizeRanges(rule string) {
 	c.sawFunc(key)
 	// comparisons between the current rune and Ranges[i][0|1] / Characters[i]
 	type cmp struct {
-		op   token.Token
+		op    token.Token
 		which int // 0 lower, 1 upper, 2 extra char
-		at   ssa.Instruction
+		at    ssa.Instruction
 	}
 	var cmps []cmp
 	classify := func(v ssa.Value) int {
@@ -106,37 +106,70 @@ func (c *Ctx) checkSanitizeRanges(rule string) {
 			return 2
 		}
 		// Ranges[i][k]
-		if k, isK := constInt(ia.Index); isK {
+		if k, isK := constInt(ia.Index); isK && (k == 0 || k == 1) {
 			if ia2, ok2 := ia.X.(*ssa.IndexAddr); ok2 {
-				if f, _ := loadedField(ia2.X); f == fRanges && (k == 0 || k == 1) {
+				if f, _ := loadedField(ia2.X); f == fRanges {
 					return int(k)
+				}
+			}
+			// `for _, r := range Ranges { r[k] }`: r is a local copy of Ranges[i]
+			if al, isAl := ia.X.(*ssa.Alloc); isAl {
+				if stores, fromEntry := reachingStores(al, ld); !fromEntry && len(stores) == 1 {
+					if src, isLd := stripConv(stores[0].Val).(*ssa.UnOp); isLd && src.Op == token.MUL {
+						if ia2, ok2 := src.X.(*ssa.IndexAddr); ok2 {
+							if f, _ := loadedField(ia2.X); f == fRanges {
+								return int(k)
+							}
+						}
+					}
 				}
 			}
 		}
 		return -1
 	}
-	instrsOf(cl, func(in ssa.Instruction) {
-		bo, ok := in.(*ssa.BinOp)
-		if !ok {
-			return
+	// the test may live in a helper called from the closure (isValid(ch)): scan the closure and the
+	// module functions it calls, two levels deep
+	scan := []*ssa.Function{cl}
+	seenFn := map[*ssa.Function]bool{cl: true}
+	for depth, frontier := 0, []*ssa.Function{cl}; depth < 2 && len(frontier) > 0; depth++ {
+		var next []*ssa.Function
+		for _, f := range frontier {
+			instrsOf(f, func(in ssa.Instruction) {
+				if call, ok := in.(ssa.CallInstruction); ok {
+					if g := staticCallee(call); g != nil && c.inModule(g) && g.Blocks != nil && !seenFn[g] {
+						seenFn[g] = true
+						scan = append(scan, g)
+						next = append(next, g)
+					}
+				}
+			})
 		}
-		switch bo.Op {
-		case token.EQL, token.NEQ, token.LSS, token.LEQ, token.GTR, token.GEQ:
-		default:
-			return
-		}
-		op := bo.Op
-		w := classify(bo.Y)
-		if w < 0 {
-			if w2 := classify(bo.X); w2 >= 0 {
-				w = w2
-				op = flipCmp(op) // normalise to  ch OP bound
+		frontier = next
+	}
+	for _, scanned := range scan {
+		instrsOf(scanned, func(in ssa.Instruction) {
+			bo, ok := in.(*ssa.BinOp)
+			if !ok {
+				return
 			}
-		}
-		if w >= 0 {
-			cmps = append(cmps, cmp{op, w, in})
-		}
-	})
+			switch bo.Op {
+			case token.EQL, token.NEQ, token.LSS, token.LEQ, token.GTR, token.GEQ:
+			default:
+				return
+			}
+			op := bo.Op
+			w := classify(bo.Y)
+			if w < 0 {
+				if w2 := classify(bo.X); w2 >= 0 {
+					w = w2
+					op = flipCmp(op) // normalise to  ch OP bound
+				}
+			}
+			if w >= 0 {
+				cmps = append(cmps, cmp{op, w, in})
+			}
+		})
+	}
 	got := map[int]token.Token{}
 	for _, x := range cmps {
 		got[x.which] = x.op
